@@ -2,7 +2,18 @@
 
 Runs the two scripts of /repo as subprocesses on generated MRC files (planted rotated template), compares the
 orientation list with the planted reference position / rotation, the result pickle with an in-process search of the
-same data, and the pickle container with the Lean model (Model/C18.lean)."""
+same data, and the pickle container with the Lean model (Model/C18.lean).
+
+Case families of the subprocess stream (`family` in the recorded input):
+  dense     the template fills its (cubic, 5 or 6 voxel) box; interior / border-adjacent / overhanging placements
+  noncubic  the template fills a box with three different extents (mixed parities); planted under one of the rotations
+            that map the box onto itself
+  intcom    automatic centring with a particle whose centre of mass is a voxel centre (point-symmetric dyadic values,
+            non-cubic extents, off-centre in a possibly non-cubic file box): every resampling step of the centring path
+            is an integral shift, so the reference point is exact
+  masked    a template mask file (--template_mask) that is tight around an off-centre particle, the target is clutter
+            everywhere except under the (rotated) mask: only a correctly aligned mask gives the planted copy score 1
+Every family is crossed with the call-time dimensions of the two tools (see `_options`)."""
 import hashlib
 import os
 import subprocess
@@ -15,79 +26,150 @@ from .. import scoring as S
 
 ID = "C18"
 RULE = ("subprocess runs of scripts/match_template.py and scripts/postprocess.py: scores x {score map, peak calling} x "
-        "{unsplit, memory-limited splitting} x {pad_fourier, pad_edges} x {centring on/off} x peak callers in post-processing, "
-        "planted positions interior and next to the border, planted rotation from the 24-member set; pickle container on "
-        "generated result tuples with ndarray / tuple / memmap members. distinct = distinct option tuples")
+        "{unsplit, memory-limited splitting} x {pad_fourier, pad_edges} x {centring on/off} x peak callers in post-processing x "
+        "{dense, non-cubic, integral-centre-of-mass, mask-file} templates x {sampling rate, origins, intensity scale / offset, "
+        "inverted contrast, target mask, -a 60 / 180, interpolation order, score threshold, job counts 1..7, memory maps, "
+        "output location} x post-processing options {number of peaks, min distance, minimum / maximum score incl. ties, "
+        "boundary distance, mask, re-read orientations, oversampling}; planted positions interior and next to the border, "
+        "planted rotation from the 24-member set; pickle container on generated result tuples with ndarray / tuple / memmap "
+        "members (dtypes, read-only maps, output directories, rewritten paths). distinct = distinct option tuples")
 ASSUMPTIONS = ["PeakCallerScipy and the unnormalised scores CC / LCC are exercised with interior placements only (C05's border "
                "exception for the external local-maximum finder; CC / LCC are not bounded by the planted value at mirrored borders)",
                "with automatic centring the template is resampled about its centre of mass (interpolation): the best "
-               "orientation must be within 1 voxel (per axis) of the planted centre of mass; without centring it must be the "
-               "planted box centre (shape//2) exactly",
-               "a rotation is 'the planted rotation' if it maps the template onto the planted copy"]
+               "orientation must be within 1 voxel (per axis) of the planted centre of mass; when the centre of mass is a "
+               "voxel centre (family intcom / masked) every shift is integral and the best orientation must be that voxel exactly; "
+               "without centring it must be the planted box centre (shape//2) exactly",
+               "a rotation is 'the planted rotation' if it maps the template onto the planted copy",
+               "memory maps handed to the container are whole-file, C-ordered, offset 0 (what array_to_memmap and the analyzers "
+               "create); Fortran-ordered maps, maps with a byte offset and sliced views of a map are outside the result tuples the "
+               "property speaks about (the container does not preserve them)",
+               "intensity scales / offsets are applied to the normalised, mean-free scores only (FLC, FLCSphericalMask, MCC; "
+               "scale also CORR, CAM); a template mask file is used with the scores that rotate their mask (FLC, MCC)",
+               "a --minimum_score equal to the best score keeps the best orientation for every peak caller but PeakCallerScipy (the external "
+               "finder's threshold is exclusive)",
+               "--peak_oversampling f refines inside a window of ceil(1.5 f) / f voxels centred on the integer peak: the refined best "
+               "position must stay within 0.75 voxel of the reference point"]
 TRUSTED = ["C18: CPython pickle, numpy.memmap, mrcfile; the composition rests on the C01-C05/C11 theorems plus "
            "Pm.C18.planted_window_at_reference / pipeline_best_is_planted"]
 
 SCORES = ["FLC", "FLCSphericalMask", "CORR", "CAM", "MCC", "CC", "LCC"]
+CALLERS = ["PeakCallerMaximumFilter", "PeakCallerSort", "PeakCallerFast", "PeakCallerRecursiveMasking", "PeakCallerScipy"]
+NORMALISED = ("FLC", "FLCSphericalMask", "CORR", "CAM", "MCC")
+MEANFREE = ("FLC", "FLCSphericalMask", "MCC")
+TSV_HEADER = ["z", "y", "x", "euler_z", "euler_y", "euler_x", "score", "detail"]
 
 
 def _digest(a):
     return hashlib.sha1(np.ascontiguousarray(a).tobytes()).hexdigest()[:12]
 
 
+# ------------------------------------------------------------------------------------------------------------------
+# the result container (write_pickle / load_pickle) against the Lean model
+# ------------------------------------------------------------------------------------------------------------------
+MM_DTYPES = [np.float32, np.float32, np.float64, np.int32, np.int64, np.float16, np.uint8]
+ND_DTYPES = [np.float32, np.float32, np.float64, np.int64, np.int32, np.float16, np.bool_]
+
+
+def _first_repr(x):
+    return x if isinstance(x, str) else "<" + type(x).__name__ + ">" + repr(x)
+
+
 def _pickle_cases(ctx, d, rng, tmp):
-    from tme.matching_utils import write_pickle, load_pickle
-    n = ctx.budget(25, 200)
+    from tme.matching_utils import write_pickle, load_pickle, array_to_memmap
+    n = ctx.budget(40, 300)
+    outdirs = [tmp, os.path.join(tmp, "res_a"), os.path.join(tmp, "res a", "deep")]
+    for p in outdirs:
+        os.makedirs(p, exist_ok=True)
+    desc_eff, prev_desc = [], []
+    prev_out = None
     for it in range(n):
         k = int(rng.integers(1, 6))
         items, desc, keep = [], [], []
         for j in range(k):
             r = rng.random()
-            if r < 0.4:
-                a = rng.normal(size=tuple(int(x) for x in rng.integers(1, 5, size=int(rng.integers(1, 4))))).astype(np.float32)
+            if r < 0.35:
+                dt = ND_DTYPES[int(rng.integers(0, len(ND_DTYPES)))]
+                shape = tuple(int(x) for x in rng.integers(1, 5, size=int(rng.integers(1, 4))))
+                a = (rng.normal(size=shape) * 20).astype(dt)
+                lay = int(rng.integers(0, 4))
+                if lay == 1:
+                    a = np.asfortranarray(a)
+                elif lay == 2:
+                    a = a[::-1]
+                elif lay == 3 and a.ndim > 1:
+                    a = a.T
                 items.append(a)
-                desc.append({"kind": "obj", "payload": "nd:" + _digest(a)})
-                keep.append(a)
-            elif r < 0.6:
-                first = str(rng.choice(["meta", "np.memmapX", "origin", "x"]))
+                desc.append({"kind": "obj", "payload": "nd:" + _digest(a) + ":" + np.dtype(dt).name})
+                keep.append(np.array(a))
+            elif r < 0.55:
+                # ordinary tuples: the first element is inspected by load_pickle; names that differ from the marker only by
+                # case / length / trailing blanks, and first elements that are not strings at all (never a tuple that itself starts
+                # with the marker: handed over bare, its elements become records - the quirk the theorem's hypothesis excludes)
+                first = [("meta",), ("np.memmapX",), ("origin",), ("x",), ("np.memma",), ("NP.MEMMAP",), ("np.memmap ",), ("",),
+                         (7,), (2.5,), (None,), (["np.memmap"],)][int(rng.integers(0, 12))][0]
                 t = (first, int(rng.integers(0, 100)))
+                if rng.random() < 0.3:
+                    t = t + (np.arange(3, dtype=np.float32), "np.memmap")
                 items.append(t)
-                desc.append({"kind": "tup", "first": first, "rest": repr(t[1:])})
+                desc.append({"kind": "tup", "first": _first_repr(first), "rest": repr(t[1:])})
                 keep.append(t)
-            elif r < 0.75:
-                obj = {"a": int(rng.integers(0, 9))}
+            elif r < 0.7:
+                obj = [{"a": int(rng.integers(0, 9))}, [int(rng.integers(0, 9)), "np.memmap"], None, 3.5, "np.memmap"][int(rng.integers(0, 5))]
                 items.append(obj)
-                desc.append({"kind": "obj", "payload": "dict:" + repr(obj)})
+                desc.append({"kind": "obj", "payload": "py:" + repr(obj)})
                 keep.append(obj)
             else:
+                dt = MM_DTYPES[int(rng.integers(0, len(MM_DTYPES)))]
                 shape = tuple(int(x) for x in rng.integers(1, 5, size=int(rng.integers(1, 4))))
                 fn = os.path.join(tmp, f"mm_{it}_{j}.dat")
-                mm = np.memmap(fn, mode="w+", shape=shape, dtype=np.float32)
-                mm[:] = rng.normal(size=shape)
-                mm.flush()
-                content = np.array(mm).copy()
+                content = (rng.normal(size=shape) * 20).astype(dt)
+                how = int(rng.integers(0, 3))
+                if how == 0:
+                    mm = np.memmap(fn, mode="w+", shape=shape, dtype=dt)
+                    mm[:] = content
+                    mm.flush()
+                else:
+                    # the library's own way (analyzers with use_memmap): array_to_memmap, reopened read-only or read-write
+                    array_to_memmap(content, fn)
+                    mm = np.memmap(fn, mode="r" if how == 1 else "r+", shape=shape, dtype=dt)
                 items.append(mm)
-                desc.append({"kind": "memmap", "shape": list(shape), "dtype": "float32", "file": fn, "content": it * 10 + j})
+                desc.append({"kind": "memmap", "shape": list(shape), "dtype": np.dtype(dt).name, "file": fn, "content": it * 10 + j})
                 keep.append(content)
-        out = os.path.join(tmp, f"res_{it}.pickle")
+        # output location: the scratch directory itself, a sub-directory, a nested one with a blank in its name; now and then the
+        # path written last time is written again (with other content): only the new records may come back
+        if prev_out is not None and rng.random() < 0.25:
+            out, rewritten = prev_out, True
+        else:
+            out, rewritten = os.path.join(outdirs[int(rng.integers(0, len(outdirs)))], f"res_{it}.pickle"), False
+        prev_out = out
         data = items if rng.random() < 0.7 or k > 1 else items[0]
-        bare = not isinstance(data, (list, tuple)) or isinstance(data, tuple) and k == 1 and not isinstance(items[0], tuple)
+        if isinstance(data, list) and rng.random() < 0.3:
+            data = tuple(data)          # write_pickle takes lists and tuples alike
+        if isinstance(data, tuple) and len(data) == 0:
+            data = items
         try:
-            write_pickle(data if not (k == 1 and isinstance(data, list) is False) else data, out)
+            write_pickle(data, out)
             back = load_pickle(out)
         except Exception as e:
-            ctx.spec("result container reloads", {"items": desc}, False, repr(e), key="pickle:raised")
+            ctx.spec("result container reloads", {"items": desc, "rewritten": rewritten}, False, repr(e), key="pickle:raised")
             continue
-        # what was actually written as a sequence
-        seq = list(data) if isinstance(data, (list, tuple)) and not (isinstance(data, tuple) and k == 1 and data is items[0]) else [data]
-        if isinstance(data, tuple) and data is items[0]:
-            # a bare tuple item is a sequence to write_pickle: its elements become the records
+        if type(data) in (list, tuple):
+            # (a bare tuple item is a sequence to write_pickle: its elements become the records)
             seq = list(data)
-            desc_eff = [{"kind": "obj", "payload": "py:" + repr(x)} for x in seq]
-            keep_eff = list(seq)
+            if data is not items and not (isinstance(data, tuple) and len(data) == len(items) and all(x is y for x, y in zip(data, items))):
+                desc_eff = [{"kind": "obj", "payload": "py:" + repr(x)} if not isinstance(x, tuple) else
+                            {"kind": "tup", "first": _first_repr(x[0]), "rest": repr(x[1:])} for x in seq]
+                keep_eff = list(seq)
+            else:
+                desc_eff, keep_eff = desc, keep
         else:
-            desc_eff, keep_eff = desc, keep
+            seq, desc_eff, keep_eff = [data], desc, keep
         back_seq = back if isinstance(back, list) and len(seq) != 1 else [back]
-        m = d.call("c18.pickle", items=desc_eff)
+        if rewritten:
+            m = d.call("c18.rewrite", before=prev_desc, items=desc_eff)      # Disk model: the path holds only the new records
+        else:
+            m = d.call("c18.pickle", items=desc_eff)
+        prev_desc = desc_eff
         impl_kinds = []
         for b in back_seq:
             if isinstance(b, np.memmap):
@@ -96,102 +178,314 @@ def _pickle_cases(ctx, d, rng, tmp):
                 impl_kinds.append("tup")
             else:
                 impl_kinds.append("obj")
-        ctx.agree("load_pickle(write_pickle(items)): kinds of the reloaded records", {"items": desc_eff},
+        inp = {"items": desc_eff, "rewritten": rewritten, "outdir": os.path.relpath(os.path.dirname(out), tmp)}
+        ctx.agree("load_pickle(write_pickle(items)): kinds of the reloaded records", inp,
                   impl_kinds, [x["kind"] for x in m["loaded"]])
         ok = len(back_seq) == len(seq)
+        why = None if ok else f"{len(back_seq)} records for {len(seq)} items"
         if ok:
             for b, orig, dsc in zip(back_seq, keep_eff, desc_eff):
                 if dsc["kind"] == "memmap":
-                    ok &= isinstance(b, np.memmap) and b.shape == orig.shape and b.dtype == orig.dtype and np.array_equal(np.array(b), orig) \
-                        and os.path.dirname(b.filename) == os.path.dirname(out) and not os.path.exists(dsc["file"])
+                    good = isinstance(b, np.memmap) and b.shape == orig.shape and b.dtype == orig.dtype and np.array_equal(np.array(b), orig) \
+                        and os.path.dirname(os.path.abspath(b.filename)) == os.path.dirname(os.path.abspath(out)) and not os.path.exists(dsc["file"])
                 elif isinstance(orig, np.ndarray):
-                    ok &= isinstance(b, np.ndarray) and b.dtype == orig.dtype and np.array_equal(b, orig)
+                    good = isinstance(b, np.ndarray) and b.dtype == orig.dtype and b.shape == orig.shape and np.array_equal(b, orig)
+                elif isinstance(orig, tuple):
+                    good = isinstance(b, tuple) and len(b) == len(orig) and all(
+                        (np.array_equal(x, y) if isinstance(y, np.ndarray) else (type(x) is type(y) and x == y)) for x, y in zip(b, orig))
                 else:
-                    ok &= (b == orig)
-        ctx.spec("result container reloads to the same arrays / tuples / metadata, memory maps relocated", {"items": desc_eff}, bool(ok),
-                 key="pickle:roundtrip")
-        ctx.distinct(("pickle", tuple(x["kind"] for x in desc_eff)))
+                    good = type(b) is type(orig) and b == orig
+                if not good and why is None:
+                    why = {"item": dsc, "reloaded": repr(b)[:200]}
+                ok &= bool(good)
+        ctx.spec("result container reloads to the same arrays / tuples / metadata, memory maps relocated", inp, bool(ok), why,
+                 key="pickle:roundtrip" + (":rewritten-path" if rewritten and not ok else ""))
+        ctx.distinct(("pickle", tuple(x["kind"] for x in desc_eff), rewritten))
         ctx.count("pickle:" + ("with-memmap" if any(x["kind"] == "memmap" for x in desc_eff) else "plain"))
+        if rewritten:
+            ctx.count("pickle:rewritten-path")
     ctx.sample({"pickle_items": desc_eff})
 
 
-def _write_mrc(path, arr):
+# ------------------------------------------------------------------------------------------------------------------
+# the two command-line tools
+# ------------------------------------------------------------------------------------------------------------------
+def _write_mrc(path, arr, sampling=1.0, origin=None):
     from tme import Density
-    Density(arr.astype(np.float32), origin=np.zeros(arr.ndim), sampling_rate=np.ones(arr.ndim)).to_file(path)
+    origin = np.zeros(arr.ndim) if origin is None else np.asarray(origin, dtype=float)
+    Density(arr.astype(np.float32), origin=origin, sampling_rate=np.ones(arr.ndim) * sampling).to_file(path)
 
 
 def _run(cmd, cwd):
-    p = subprocess.run(cmd, cwd=cwd, env=env.child_env(), capture_output=True, text=True, timeout=600)
+    try:
+        p = subprocess.run(cmd, cwd=cwd, env=env.child_env(), capture_output=True, text=True, timeout=900)
+    except subprocess.TimeoutExpired:
+        return 124, "timeout"
     return p.returncode, (p.stdout + p.stderr)[-1500:]
 
 
-def _cli_case(ctx, d, rng, tmp, it, opt):
-    from tme.matching_utils import load_pickle, euler_to_rotationmatrix
-    from tme.orientations import Orientations
-    from tme.memory import estimate_ram_usage
-    score, peak_calling, split, centering, pad_fourier, pad_edges, peak_caller, border, use_memmap = (
-        opt[k] for k in ("score", "peak_calling", "split", "centering", "pad_fourier", "pad_edges", "peak_caller", "border", "use_memmap"))
-    m = 5 if centering else (6 if it % 2 == 0 else 5)       # even boxes only arise without centring
-    ms = [m] * 3
-    ns = [int(x) for x in rng.integers(3 * m + 4, 3 * m + 8, size=3)]
-    margin = 0
-    if border == "upper":
-        # a template whose density sits in the middle of a larger, otherwise empty box (the usual cryo-EM situation): the
-        # box may overhang the target's upper border while the density itself is still inside the target
-        m, margin = 9, 3
-        ms = [m] * 3
-        ns = [int(x) for x in rng.choice([23, 29, 31, 37], size=3)]      # next_fast_len(n) > n on every axis
-    # asymmetric positive template; with centring the enclosing box is the template box itself (all voxels > 0)
-    template = rng.random(ms) * 0.8 + 0.2
-    template[0 + margin, :, :] += 1.5
-    template[:, 1 + margin, :] += 0.7
-    template[:, :, 2 + margin] += 1.1
-    if margin:
-        core = np.zeros(ms, bool)
-        core[(slice(margin, m - margin),) * 3] = True
-        template = np.where(core, template, 0.0)
-    # the rotation set the tool will use (24 grid rotations, in the tool's order: inner jobs get contiguous chunks)
-    from tme.matching_utils import get_rotation_matrices
-    Rset = np.asarray(get_rotation_matrices(angular_sampling=60, dim=3), dtype=np.float64)
-    jobs = int(opt.get("jobs", 2))
-    if peak_calling and split:
-        ridx = int(rng.integers(0, 12))
-    elif len(Rset) % jobs:
-        ridx = len(Rset) - 1 - int(rng.integers(0, len(Rset) % jobs))     # among the rotations only the last job's remainder covers
-    else:
-        ridx = int(rng.integers(0, len(Rset)))
-    R = Rset[ridx]
+_ROT = {}
+
+
+def _rotset(angular):
+    """the rotation matrices the tool samples for `-a angular` (its own order)"""
+    if angular not in _ROT:
+        from tme.matching_utils import get_rotation_matrices
+        if angular >= 180:
+            _ROT[angular] = np.eye(3).reshape(1, 3, 3)
+        else:
+            _ROT[angular] = np.asarray(get_rotation_matrices(angular_sampling=angular, dim=3), dtype=np.float64)
+    return _ROT[angular]
+
+
+def _perm_flip(R):
     Rinv = R.T
     perm = [int(np.argmax(np.abs(Rinv[i]))) for i in range(3)]
     flip = [bool(Rinv[i, perm[i]] < 0) for i in range(3)]
-    rots = S.grid_rotations(3)
-    gR = S.rotate_grid(template, perm, flip)
-    P0 = []
-    for n in ns:
-        if centering:
-            # the centred template lives in an enlarged box (all rotations fit): keep that box inside the target
-            P0.append(int(rng.integers(4, n - m - 3)))
-        elif peak_calling and split:
-            P0.append(int(rng.integers(n // 2 + 1, n - m)))       # in a tile with a non-zero offset
-        elif peak_caller == "PeakCallerScipy" or score in ("CC", "LCC"):
-            # the external local-maximum finder only promises maxima farther than min_distance (3) from the border (C05);
-            # unnormalised scores (CC, LCC) are not bounded by the planted value once mirrored / zero-extended data
-            # enters the window, so these two are planted in the interior
-            P0.append(int(rng.integers(4, n - m - 3)))
+    return perm, flip
+
+
+def _com_particle(rng):
+    """a particle in a cubic box of 9 voxels whose centre of mass is the central voxel, exactly (values are multiples of 1/16, so
+    every moment is exact in float32 and float64): a point-symmetric body with odd extents 3 / 5, plus a tail voxel four voxels out
+    along an axis on which the body is 3 wide, balanced by four times its weight on the body's opposite face.  The bounding box is
+    therefore not centred on the centre of mass (the centring shift of the tool is a non-zero integral vector), the extents differ,
+    and the particle has no symmetry (neither rotational nor mirror)"""
+    ext = [int(x) for x in rng.permutation([[3, 5, 3], [3, 3, 5], [5, 3, 5], [3, 5, 5]][int(rng.integers(0, 4))])]
+    q = rng.integers(3, 17, size=ext).astype(np.float64)
+    q[0, :, :] += 8
+    q[:, 0, :] += 4
+    q[:, :, 0] += 12
+    q[0, 0, :] += 6
+    body = (q + q[::-1, ::-1, ::-1]) / 16.0
+    K, c = 9, 4
+    canon = np.zeros((K, K, K))
+    canon[tuple(slice(c - e // 2, c + e // 2 + 1) for e in ext)] = body
+    axis = int(rng.choice([i for i, e in enumerate(ext) if e == 3]))
+    sign = int(rng.choice([-1, 1]))
+    w = int(rng.integers(4, 13)) / 16.0
+    tail, face = [c, c, c], [c, c, c]
+    tail[axis] += 4 * sign
+    face[axis] -= sign
+    canon[tuple(tail)] += w
+    canon[tuple(face)] += 4 * w
+    nz = np.argwhere(canon > 0)
+    lo, hi = nz.min(0), nz.max(0) + 1
+    return canon, [int(x) for x in lo], [int(x) for x in hi]
+
+
+def _read_tsv(path):
+    """the orientation file as written (parsed here, not by the library): header, columns by name"""
+    with open(path, encoding="utf-8") as f:
+        rows = [ln.rstrip("\n").split("\t") for ln in f.read().split("\n") if ln.strip() != ""]
+    header = rows[0]
+    body = rows[1:]
+    col = {h: i for i, h in enumerate(header)}
+    tab = {h: [r[col[h]] for r in body] for h in header}
+    return header, tab, len(body)
+
+
+def _build_case(it, opt, rng, rx, tmp):
+    """generate the files and command lines of one case (main thread); rng draws of the historical families keep their order,
+    every newer dimension draws from `rx`"""
+    from tme.memory import estimate_ram_usage
+    from tme import Density
+    score, peak_calling, split, centering, pad_fourier, pad_edges, peak_caller, border, use_memmap = (
+        opt[k] for k in ("score", "peak_calling", "split", "centering", "pad_fourier", "pad_edges", "peak_caller", "border", "use_memmap"))
+    fam = opt.get("family", "dense")
+    angular = int(opt.get("angular", 60))
+    Rset = _rotset(angular)
+    jobs = int(opt.get("jobs", 2))
+    tmask_file, rot_obj, expected_score = None, None, None
+    margin = 0
+    exact_centre = False
+    if fam == "dense":
+        m = 5 if centering else (6 if it % 2 == 0 else 5)       # even boxes only arise without centring
+        ms = [m] * 3
+        ns = [int(x) for x in rng.integers(3 * m + 4, 3 * m + 8, size=3)]
+        if border == "upper":
+            # a template whose density sits in the middle of a larger, otherwise empty box (the usual cryo-EM situation): the
+            # box may overhang the target's upper border while the density itself is still inside the target
+            m, margin = 9, 3
+            ms = [m] * 3
+            ns = [int(x) for x in rng.choice([23, 29, 31, 37], size=3)]      # next_fast_len(n) > n on every axis
+        # asymmetric positive template; with centring the enclosing box is the template box itself (all voxels > 0)
+        template = rng.random(ms) * 0.8 + 0.2
+        template[0 + margin, :, :] += 1.5
+        template[:, 1 + margin, :] += 0.7
+        template[:, :, 2 + margin] += 1.1
+        if margin:
+            core = np.zeros(ms, bool)
+            core[(slice(margin, m - margin),) * 3] = True
+            template = np.where(core, template, 0.0)
+        # the rotation set the tool will use (in the tool's order: inner jobs get contiguous chunks)
+        if peak_calling and split:
+            ridx = int(rng.integers(0, max(1, len(Rset) // 2)))
+        elif len(Rset) % jobs and len(Rset) > jobs:
+            ridx = len(Rset) - 1 - int(rng.integers(0, len(Rset) % jobs))     # among the rotations only the last job's remainder covers
         else:
-            P0.append(n - m + margin if border == "upper" else int(rng.choice([0, n - m])) if border else int(rng.integers(1, n - m)))
-    target = rng.normal(0, 0.05 if margin else 0.15, size=ns)
-    # (the box may overhang the upper border: only the part inside the target is added; the overhanging part of gR is empty)
-    target[tuple(slice(p, min(p + m, n)) for p, n in zip(P0, ns))] += gR[tuple(slice(0, min(m, n - p)) for p, n in zip(P0, ns))]
+            ridx = int(rng.integers(0, len(Rset)))
+        R = Rset[ridx]
+        perm, flip = _perm_flip(R)
+        gR = S.rotate_grid(template, perm, flip)
+        P0 = []
+        for n in ns:
+            if centering:
+                # the centred template lives in an enlarged box (all rotations fit): keep that box inside the target
+                P0.append(int(rng.integers(4, n - m - 3)))
+            elif peak_calling and split:
+                P0.append(int(rng.integers(n // 2 + 1, n - m)))       # in a tile with a non-zero offset
+            elif peak_caller == "PeakCallerScipy" or score in ("CC", "LCC"):
+                # the external local-maximum finder only promises maxima farther than min_distance (3) from the border (C05);
+                # unnormalised scores (CC, LCC) are not bounded by the planted value once mirrored / zero-extended data
+                # enters the window, so these two are planted in the interior
+                P0.append(int(rng.integers(4, n - m - 3)))
+            else:
+                P0.append(n - m + margin if border == "upper" else int(rng.choice([0, n - m])) if border else int(rng.integers(1, n - m)))
+        target = rng.normal(0, 0.05 if margin else 0.15, size=ns)
+        # (the box may overhang the upper border: only the part inside the target is added; the overhanging part of gR is empty)
+        target[tuple(slice(p, min(p + m, n)) for p, n in zip(P0, ns))] += gR[tuple(slice(0, min(m, n - p)) for p, n in zip(P0, ns))]
+        rot_obj, rot_img = template, gR
+        if centering:
+            com = np.array([np.sum(gR * g) / gR.sum() for g in np.indices(ms)])
+            ref, tol = np.array(P0) + com, 1.0
+        else:
+            ref, tol = None, 0.0        # P0 + ms // 2, from the Lean model
+        box = ms
+    elif fam == "noncubic":
+        # three different extents of mixed parity; the rotations that map such a box onto itself: identity and the half turns
+        ms = [int(x) for x in rx.permutation([[5, 6, 7], [4, 5, 7], [6, 5, 8], [5, 7, 9]][int(rx.integers(0, 4))])]
+        ns = [int(3 * mm + rx.integers(2, 7)) for mm in ms]
+        template = rx.random(ms) * 0.8 + 0.2
+        template[0, :, :] += 1.5
+        template[:, 1, :] += 0.7
+        template[:, :, 2] += 1.1
+        keepers = [i for i, Rm in enumerate(Rset) if np.allclose(np.abs(Rm), np.eye(3), atol=1e-6)]
+        ridx = int(keepers[int(rx.integers(0, len(keepers)))])
+        R = Rset[ridx]
+        perm, flip = _perm_flip(R)
+        gR = S.rotate_grid(template, perm, flip)
+        interior = peak_caller == "PeakCallerScipy" or score in ("CC", "LCC") or (peak_calling and split)
+        P0 = []
+        for n, mm in zip(ns, ms):
+            if interior:
+                P0.append(int(rx.integers(4, n - mm - 3)))
+            else:
+                P0.append(int(rx.choice([0, n - mm])) if border else int(rx.integers(1, n - mm)))
+        target = rx.normal(0, 0.15, size=ns)
+        target[tuple(slice(p, p + mm) for p, mm in zip(P0, ms))] += gR
+        rot_obj, rot_img = template, gR
+        ref, tol = None, 0.0
+        box = ms
+    else:
+        # intcom / masked: a particle whose centre of mass is a voxel centre, off the centre of its bounding box
+        canon, blo, bhi = _com_particle(rx)
+        K = canon.shape[0]
+        ext = [h - l for l, h in zip(blo, bhi)]
+        p = canon[tuple(slice(l, h) for l, h in zip(blo, bhi))]
+        cmask = np.zeros((K, K, K))
+        cmask[tuple(slice(l, h) for l, h in zip(blo, bhi))] = 1.0
+        if centering:
+            # file box: possibly non-cubic, the particle anywhere in it
+            ms = [int(e + rx.integers(1, 5)) for e in ext]
+            off = [int(rx.integers(0, mm - e + 1)) for mm, e in zip(ms, ext)]
+        else:
+            # without centring the tool rotates the file box about its geometric centre: cubic box, particle off-centre
+            mm = max(ext) + int(rx.integers(1, 4))
+            ms = [mm] * 3
+            off = [int(rx.integers(0, mm - e + 1)) for e in ext]
+        template = np.zeros(ms)
+        sl = tuple(slice(o, o + e) for o, e in zip(off, ext))
+        template[sl] = p
+        tmask = np.zeros(ms)
+        tmask[sl] = 1.0
+        if len(Rset) % jobs and len(Rset) > jobs and rx.random() < 0.5:
+            ridx = len(Rset) - 1 - int(rx.integers(0, len(Rset) % jobs))
+        else:
+            ridx = int(rx.integers(0, len(Rset)))
+        R = Rset[ridx]
+        perm, flip = _perm_flip(R)
+        if centering:
+            obj, objmask = canon, cmask       # the tool rotates the centred template about the centre of mass
+        else:
+            obj, objmask = template, tmask
+        gR = S.rotate_grid(obj, perm, flip)
+        gM = S.rotate_grid(objmask, perm, flip)
+        B = obj.shape[0]
+        box = [B] * 3
+        if centering:
+            cshape = [int(x) for x in Density(template.astype(np.float32)).centered(0)[0].shape]
+            ns = [int(max(3 * K, c + 8) + rx.integers(4, 9)) for c in cshape]
+            lo = [max(3, (c - K) // 2 + 2) for c in cshape]
+        else:
+            ns = [int(3 * B + rx.integers(2, 7)) for _ in range(3)]
+            # --pad_edges mirrors the target at its faces: keep the particle so far inside that the box centre belonging to a
+            # mirror image of it lies outside the target (the particle has no mirror symmetry, its body alone nearly has)
+            lo = [(B - min(ext)) // 2 + 1] * 3
+        P0 = [int(rx.integers(l, n - B - l + 1)) for l, n in zip(lo, ns)]
+        win = tuple(slice(q, q + B) for q in P0)
+        if fam == "masked":
+            # clutter everywhere; the planted copy exists only under the (rotated) mask: a mask that is not moved together with
+            # the template covers clutter instead of the particle
+            target = rx.normal(0, 0.6, size=ns)
+            w = target[win]
+            w[gM > 0] = gR[gM > 0] + rx.normal(0, 0.01, size=int((gM > 0).sum()))
+            tmask_file = tmask
+            # what a mask-aware normalised score is at the planted pose: the correlation of window and template under the mask
+            expected_score = float(np.corrcoef(w[gM > 0], gR[gM > 0])[0, 1])
+        else:
+            target = rx.normal(0, 0.05, size=ns)
+            target[win] += gR
+        rot_obj, rot_img = obj, gR
+        exact_centre = True
+        if centering:
+            ref, tol = np.array(P0, dtype=float) + (K - 1) / 2.0, 0.0
+        else:
+            ref, tol = None, 0.0
+    ns = [int(x) for x in ns]
+    # ---- call-time dimensions that leave the expected answer unchanged -------------------------------------------------
+    st, sT, offs = float(opt.get("target_scale", 1.0)), float(opt.get("template_scale", 1.0)), float(opt.get("target_offset", 0.0))
+    target_f = (target + offs) * st
+    template_f = template * sT
+    if opt.get("invert"):
+        target_f = -target_f          # the file holds the inverted contrast; --invert_target_contrast undoes it
+    sampling = float(opt.get("sampling", 1.0))
+    origin_t = [float(x) * sampling for x in opt.get("origin_target", [0, 0, 0])]
+    origin_i = [float(x) * sampling for x in opt.get("origin_template", [0, 0, 0])]
     case_dir = os.path.join(tmp, f"cli_{it}")
     os.makedirs(case_dir, exist_ok=True)
-    _write_mrc(os.path.join(case_dir, "target.mrc"), target)
-    _write_mrc(os.path.join(case_dir, "template.mrc"), template)
+    _write_mrc(os.path.join(case_dir, "target.mrc"), target_f, sampling, origin_t)
+    _write_mrc(os.path.join(case_dir, "template.mrc"), template_f, sampling, origin_i)
+    outname = {"cwd": "out.pickle", "subdir": os.path.join("res dir", "out.pickle"),
+               "abs": os.path.join(case_dir, "elsewhere", "result.bin")}[opt.get("output", "cwd")]
+    if os.path.dirname(outname):
+        os.makedirs(os.path.join(case_dir, os.path.dirname(outname)), exist_ok=True)
+    if opt.get("stale_output"):
+        # the output path already holds an older, longer result (nine records): none of it may survive the run
+        import pickle
+        with open(os.path.join(case_dir, outname), "wb") as f:
+            for i in range(9):
+                pickle.dump(("stale record", i, np.zeros((4, 4, 4), dtype=np.float32)), f)
     cmd = [env.PY, os.path.join(env.REPO, "scripts", "match_template.py"), "-m", "target.mrc", "-i", "template.mrc",
-           "-o", "out.pickle", "-s", score, "-a", "60", "-n", str(jobs), "--interpolation_order", "1"]
+           "-o", outname, "-s", score, "-a", str(angular), "-n", str(jobs)]
+    if opt.get("order", 1) is not None:
+        cmd += ["--interpolation_order", str(opt.get("order", 1))]
+    target_mask = None
     if score == "MCC":      # the doubly-masked score needs a target mask
-        _write_mrc(os.path.join(case_dir, "tmask.mrc"), np.ones(ns))
+        target_mask = np.ones(ns)
+    if opt.get("target_mask"):
+        # a target mask with a hole far from the particle (in the corner opposite to it)
+        target_mask = np.ones(ns)
+        centre_ref = np.array(P0) + np.array(box) / 2.0
+        hole = tuple(slice(0, n // 4) if c > n / 2 else slice(n - n // 4, n) for c, n in zip(centre_ref, ns))
+        target_mask[hole] = 0
+    if target_mask is not None:
+        _write_mrc(os.path.join(case_dir, "tmask.mrc"), target_mask, sampling, origin_t)
         cmd += ["--target_mask", "tmask.mrc"]
+    if tmask_file is not None:
+        # (the origin stored in a mask file is not used by the tool: it takes the template's)
+        _write_mrc(os.path.join(case_dir, "imask.mrc"), tmask_file, sampling, [7.0 * sampling, 0.0, -3.0 * sampling])
+        cmd += ["--template_mask", "imask.mrc"]
     if not centering:
         cmd.append("--no_centering")
     if pad_fourier:
@@ -202,83 +496,477 @@ def _cli_case(ctx, d, rng, tmp, it, opt):
         cmd += ["-p"]
     if use_memmap:
         cmd.append("--use_memmap")
+    if opt.get("invert"):
+        cmd.append("--invert_target_contrast")
+    if opt.get("score_threshold"):
+        cmd += ["--score_threshold", str(opt["score_threshold"])]
     if split:
-        whole = estimate_ram_usage(shape1=ns, shape2=[2 * m] * 3 if centering else ms, matching_method=score, ncores=1,
+        if fam in ("dense",):
+            shape2 = [2 * ms[0]] * 3 if centering else ms
+        elif centering:
+            shape2 = [int(x) for x in Density(template.astype(np.float32)).centered(0)[0].shape]
+        else:
+            shape2 = ms
+        whole = estimate_ram_usage(shape1=ns, shape2=shape2, matching_method=score, ncores=1,
                                    analyzer_method="PeakCallerMaximumFilter" if peak_calling else "MaxScoreOverRotations")
         cmd += ["-r", str(int(whole * 0.8))]
     inp = dict(opt)
-    inp.update({"ns": ns, "ms": ms, "P0": P0, "perm": perm, "flip": flip, "rotation_index": ridx})
-    rc, log = _run(cmd, case_dir)
-    if rc != 0 or not os.path.exists(os.path.join(case_dir, "out.pickle")):
-        ctx.spec("match_template.py runs", inp, False, log, key="cli:match_template-failed:" + score)
+    inp.update({"it": it, "ns": ns, "ms": [int(x) for x in ms], "P0": [int(x) for x in P0], "perm": perm, "flip": flip, "rotation_index": ridx,
+                "command": " ".join(cmd[2:])})
+    # post-processing: primary call + variants on the same result file
+    pp0 = [env.PY, os.path.join(env.REPO, "scripts", "postprocess.py"), "--input_file", outname, "--output_format", "orientations",
+           "--peak_caller", peak_caller]
+    primary = pp0 + ["--output_prefix", "ori"]
+    if opt.get("number_of_peaks", 10) is not None:
+        primary += ["--number_of_peaks", str(opt.get("number_of_peaks", 10))]
+    if opt.get("min_distance", 3) is not None:
+        primary += ["--min_distance", str(opt.get("min_distance", 3))]
+    return {"it": it, "opt": opt, "inp": inp, "dir": case_dir, "cmd": cmd, "out": os.path.join(case_dir, outname), "pp0": pp0, "primary": primary,
+            "target": target_f, "template": template_f, "target_mask": target_mask, "ns": ns, "ms": [int(x) for x in ms], "P0": [int(x) for x in P0],
+            "box": [int(x) for x in box], "R": R, "Rset": Rset, "ref": ref, "tol": tol, "rot_obj": rot_obj, "rot_img": rot_img, "margin": margin,
+            "exact_centre": exact_centre, "expected_score": expected_score, "sampling": sampling, "origin_t": origin_t, "origin_i": origin_i, "fam": fam,
+            "variants": list(opt.get("pp", [])), "results": {}}
+
+
+def _ref_distance_ok(case, ref, dist):
+    return all(dist + 1 <= r <= n - dist - 2 for r, n in zip(ref, case["ns"]))
+
+
+def _result_digest(path):
+    """content of every array of a result file (memory maps read through)"""
+    from tme.matching_utils import load_pickle
+    try:
+        data = load_pickle(path)
+        data = data if isinstance(data, list) else [data]
+        out = []
+        for x in data:
+            if isinstance(x, np.ndarray):
+                out.append(f"{type(x).__name__}:{x.dtype}:{x.shape}:{_digest(np.array(x))}")
+            elif isinstance(x, dict):
+                out.append("dict:" + _digest(np.array([np.asarray(v, dtype=np.float64).ravel() for _, v in sorted(x.items())])))
+        return out
+    except Exception as e:
+        return ["error:" + repr(e)]
+
+
+def _execute(case):
+    """the subprocess part of a case (pool thread): match_template.py, postprocess.py, post-processing variants"""
+    res = case["results"]
+    rc, log = _run(case["cmd"], case["dir"])
+    res["match"] = (rc, log, os.path.exists(case["out"]))
+    if rc != 0 or not res["match"][2]:
+        return case
+    res["digest_before"] = _result_digest(case["out"])
+    rc, log = _run(case["primary"], case["dir"])
+    tsv = os.path.join(case["dir"], "ori.tsv")
+    res["primary"] = (rc, log, os.path.exists(tsv))
+    if rc != 0 or not res["primary"][2]:
+        return case
+    try:
+        header, tab, nrow = _read_tsv(tsv)
+        case["tsv"] = (header, tab, nrow)
+        import shutil
+        shutil.copyfile(tsv, os.path.join(case["dir"], "ori_primary.tsv"))      # (a variant writes ori.tsv again)
+        best = max(float(np.float32(x)) for x in tab["score"]) if nrow else None
+    except Exception as e:      # evaluated in the main thread
+        case["tsv_error"] = repr(e)
+        return case
+    if best is None:
+        return case
+    pp0 = case["pp0"]
+    nd = ["--number_of_peaks", "10", "--min_distance", "3"]
+    for v in case["variants"]:
+        extra, prefix = None, "v_" + v
+        if v == "one":
+            extra, prefix = ["--number_of_peaks", "1", "--min_distance", "3"], "ori"      # (writes ori.tsv a second time)
+        elif v == "tie":
+            extra = ["--minimum_score", repr(best), "--min_distance", "3"]
+        elif v == "below":
+            extra = ["--minimum_score", repr(best * 0.5), "--min_distance", "3"]
+        elif v == "maxtie":
+            extra = nd + ["--maximum_score", repr(best)]
+        elif v == "boundary":
+            extra = nd + ["--min_boundary_distance", str(case["boundary"])]
+        elif v == "mask_edges":
+            extra = nd + ["--mask_edges"]
+        elif v == "reread":
+            extra = ["--orientations", "ori.tsv"]
+        elif v == "ppmask":
+            extra = nd + ["--target_mask", "ppmask.mrc"]
+        elif v == "oversample":
+            extra = nd + ["--peak_oversampling", "2"]
+        if extra is None:
+            continue
+        rc, log = _run(pp0 + ["--output_prefix", prefix] + extra, case["dir"])
+        path = os.path.join(case["dir"], prefix + ".tsv")
+        got = None
+        if rc == 0 and os.path.exists(path):
+            try:
+                got = _read_tsv(path)
+            except Exception as e:
+                log = repr(e)
+        res["v:" + v] = (rc, log, got)
+    res["digest_after"] = _result_digest(case["out"])
+    return case
+
+
+def _same_rotation(case, Rrep, rots):
+    R = case["R"]
+    if np.allclose(Rrep, R, atol=1e-4):
+        return True
+    obj, img = case["rot_obj"], case["rot_img"]
+    for (pp_, ff_, RR) in rots:
+        if np.allclose(RR, Rrep, atol=1e-4):
+            if not S.rot_ok_for_shape(pp_, obj.shape):
+                return False
+            return bool(np.allclose(S.rotate_grid(obj, pp_, ff_), img))
+    return False
+
+
+def _rows(tab, nrow):
+    pos = np.array([[float(tab[c][i]) for c in ("z", "y", "x")] for i in range(nrow)], dtype=float).reshape(nrow, 3)
+    ang = np.array([[float(tab[c][i]) for c in ("euler_z", "euler_y", "euler_x")] for i in range(nrow)], dtype=float).reshape(nrow, 3)
+    sc = np.array([float(np.float32(x)) for x in tab["score"]], dtype=float)
+    return pos, ang, sc
+
+
+def _evaluate(ctx, d, case):
+    from tme.matching_utils import load_pickle, euler_to_rotationmatrix
+    from tme import Density
+    opt, inp, res = case["opt"], case["inp"], case["results"]
+    score, peak_calling, split, centering, pad_fourier, pad_edges, peak_caller = (
+        opt[k] for k in ("score", "peak_calling", "split", "centering", "pad_fourier", "pad_edges", "peak_caller"))
+    it, ns, ms, P0, box, R = case["it"], case["ns"], case["ms"], case["P0"], case["box"], case["R"]
+    fam = case["fam"]
+    rc, log, there = res["match"]
+    if rc != 0 or not there:
+        key = "cli:match_template-failed:" + score
+        if opt.get("use_memmap") and opt.get("target_mask") and score != "MCC" and not peak_calling and "read-only" in log:
+            key = "cli:match_template-failed:memmap+target-mask:read-only"
+        ctx.spec("match_template.py runs", inp, False, log, key=key)
         return
-    data = load_pickle(os.path.join(case_dir, "out.pickle"))
-    cli_args = data[-1][-1]
-    n_splits = None
-    meta_ok = len(data[-1]) == 4 and os.path.basename(cli_args.template) == "template.mrc"
-    ctx.spec("result file carries the metadata record (origins, sampling rate, arguments)", inp, bool(meta_ok), key="cli:metadata")
+    data = load_pickle(case["out"])
+    meta = data[-1] if isinstance(data, list) else None
+    ctx.spec("result file holds the analyzer's four records followed by the metadata record, nothing else", inp,
+             isinstance(data, list) and len(data) == 5, {"records": len(data) if isinstance(data, list) else type(data).__name__},
+             key="cli:record-count" + (":stale-output" if opt.get("stale_output") else ""))
+    meta_ok = isinstance(meta, tuple) and len(meta) == 4
+    why = None
+    if meta_ok:
+        cli_args = meta[-1]
+        want_t = np.asarray(Density.from_file(os.path.join(case["dir"], "target.mrc"), use_memmap=True).origin, dtype=float)
+        chk = {"template path": os.path.basename(str(cli_args.template)) == "template.mrc",
+               "target path": os.path.basename(str(cli_args.target)) == "target.mrc",
+               "score": cli_args.score == score,
+               "centring flag": bool(cli_args.no_centering) == (not centering),
+               "peak flag": bool(cli_args.peak_calling) == bool(peak_calling),
+               "target origin": np.allclose(np.asarray(meta[0], dtype=float), want_t, atol=1e-4) and np.allclose(want_t, case["origin_t"], atol=1e-3),
+               "sampling rate": np.allclose(np.asarray(meta[2], dtype=float), case["sampling"], atol=1e-4),
+               "template origin": centering or np.allclose(np.asarray(meta[1], dtype=float), case["origin_i"], atol=1e-3)}
+        why = [k for k, v in chk.items() if not v]
+        meta_ok = not why
+    ctx.spec("result file carries the metadata record (origins, sampling rate, arguments)", inp, bool(meta_ok), why, key="cli:metadata")
+    if opt.get("use_memmap") and not peak_calling:
+        outdir = os.path.dirname(os.path.abspath(case["out"]))
+        mm_ok = all(isinstance(data[i], np.memmap) and os.path.dirname(os.path.abspath(data[i].filename)) == outdir for i in (0, 2))
+        ctx.spec("with --use_memmap the score and rotation maps reload as memory maps stored next to the result file", inp, bool(mm_ok),
+                 {"types": [type(data[0]).__name__, type(data[2]).__name__]}, key="cli:memmap-relocated")
     if not peak_calling:
         smap = np.asarray(data[0])
+        rmap = np.asarray(data[2])
         ctx.spec("score map in the result file has the target's shape (its indices are target voxel coordinates)", inp,
-                 list(smap.shape) == ns and list(np.asarray(data[2]).shape) == ns, {"score map": list(smap.shape), "target": ns},
+                 list(smap.shape) == ns and list(rmap.shape) == ns, {"score map": list(smap.shape), "target": ns},
                  key="cli:score-map-shape")
-        if list(smap.shape) == ns and not centering:
+        if list(smap.shape) == ns and list(rmap.shape) == ns:
             am = [int(x) for x in np.unravel_index(int(np.argmax(smap)), smap.shape)]
-            want = [p + m // 2 for p in P0]
-            ctx.spec("maximum of the score map in the result file sits at the planted box centre", inp, am == want,
-                     {"argmax": am, "planted": want}, key="cli:score-map-argmax")
+            if not centering:
+                want = [p + b // 2 for p, b in zip(P0, box)]
+                ctx.spec("maximum of the score map in the result file sits at the planted box centre", inp, am == want,
+                         {"argmax": am, "planted": want}, key="cli:score-map-argmax")
+            elif case["exact_centre"]:
+                want = [int(x) for x in case["ref"]]
+                ctx.spec("maximum of the score map in the result file sits at the planted centre of mass (a voxel centre)", inp, am == want,
+                         {"argmax": am, "planted": want}, key="cli:score-map-argmax:centred")
+            # offsets and rotation table: zero offset; one entry per sampled rotation; the entry at the maximum is the planted one
+            table = data[3]
+            tab_ok = isinstance(table, dict) and np.array_equal(np.asarray(data[1]), np.zeros(3, dtype=int))
+            why = None if tab_ok else "offset / table type"
+            if tab_ok:
+                mats = [np.asarray(v, dtype=float) for v in table.values()]
+                tab_ok = sorted(int(k) for k in table.keys()) == list(range(len(case["Rset"]))) and all(mm_.shape == (3, 3) for mm_ in mats)
+                why = None if tab_ok else {"keys": sorted(int(k) for k in table.keys())[:30]}
+                if tab_ok:
+                    hit = [int(np.argmin([np.abs(mm_ - Rk).max() for Rk in case["Rset"]])) for mm_ in mats]
+                    err = max(float(np.abs(mm_ - case["Rset"][h]).max()) for mm_, h in zip(mats, hit))
+                    tab_ok = sorted(hit) == list(range(len(case["Rset"]))) and err <= 1e-5
+                    why = None if tab_ok else {"matched": hit, "err": err}
+            ctx.spec("rotation table of the result file lists every sampled rotation once; offset is zero", inp, bool(tab_ok), why,
+                     key="cli:rotation-table")
+            if tab_ok:
+                Rmax = np.asarray(table[int(rmap[tuple(am)])], dtype=float)
+                ctx.spec("rotation stored at the maximum of the score map is the planted rotation", inp,
+                         _same_rotation(case, Rmax, S.grid_rotations(3)), {"stored": np.round(Rmax, 3).tolist()}, key="cli:rotation-map")
     # reference point in target voxel coordinates
-    if centering:
-        com = np.array([np.sum(gR * g) / gR.sum() for g in np.indices(ms)])
-        ref = np.array(P0) + com
-        tol = 1.0
+    if case["ref"] is not None:
+        ref, tol = np.asarray(case["ref"], dtype=float), case["tol"]
     else:
-        ref = np.array(d.call("c18.refPos", ms=ms, P0=P0), dtype=float)
-        tol = 0.0
-    # post-processing
-    pp = [env.PY, os.path.join(env.REPO, "scripts", "postprocess.py"), "--input_file", "out.pickle", "--output_prefix", "ori",
-          "--output_format", "orientations", "--peak_caller", peak_caller, "--number_of_peaks", "10", "--min_distance", "3"]
-    rc, log = _run(pp, case_dir)
-    tsv = os.path.join(case_dir, "ori.tsv")
-    if rc != 0 or not os.path.exists(tsv):
+        ref, tol = np.array(d.call("c18.refPos", ms=box, P0=P0), dtype=float), 0.0
+    rc, log, there = res.get("primary", (1, "not run", False))
+    if rc != 0 or not there:
         ctx.spec("postprocess.py runs", inp, False, log, key="cli:postprocess-failed:" + peak_caller)
         return
-    ori = Orientations.from_file(tsv, file_format="text")
-    if len(ori.scores) == 0:
+    if "tsv_error" in case:
+        ctx.spec("orientation file is a tab-separated table", inp, False, case["tsv_error"], key="cli:tsv-format")
+        return
+    header, tab, nrow = case["tsv"]
+    if not ctx.spec("orientation file has the columns z y x euler_z euler_y euler_x score detail", inp, header == TSV_HEADER,
+                    {"header": header}, key="cli:tsv-header"):
+        return
+    if nrow == 0:
         ctx.spec("orientation list is not empty", inp, False, key="cli:no-orientations")
         return
-    b = int(np.argmax(ori.scores))
-    pos = np.asarray(ori.translations[b], dtype=float)
-    ok_pos = bool(np.all(np.abs(pos - ref) <= tol + 1e-6))
+    rots = S.grid_rotations(3)
+    cls = ("centred" if centering else "nocentre") + (":peaks" if peak_calling else ":map")
+
+    def best_of(tab_, nrow_):
+        pos_, ang_, sc_ = _rows(tab_, nrow_)
+        b_ = int(np.argmax(sc_))
+        return pos_, ang_, sc_, b_
+
+    pos, ang, sc, b = best_of(tab, nrow)
+    ok_pos = bool(np.all(np.abs(pos[b] - ref) <= tol + 1e-6))
     ctx.spec("best orientation sits at the planted reference point (box centre / centre of mass) in target voxels", inp, ok_pos,
-             {"best": pos.tolist(), "reference": ref.tolist(), "score": float(ori.scores[b])},
-             key="cli:position:" + ("centred" if centering else "nocentre") + (":peaks" if peak_calling else ":map"))
-    Rrep = euler_to_rotationmatrix(np.asarray(ori.rotations[b], dtype=float))
-    same = np.allclose(Rrep, R, atol=1e-4)
-    if not same:
-        for (pp_, ff_, RR) in rots:
-            if np.allclose(RR, Rrep, atol=1e-4):
-                same = bool(np.allclose(S.rotate_grid(template, pp_, ff_), gR))
-    ctx.spec("best orientation carries the planted rotation", inp, bool(same), {"reported": np.round(Rrep, 3).tolist()},
+             {"best": pos[b].tolist(), "reference": ref.tolist(), "score": float(sc[b])}, key="cli:position:" + cls)
+    Rrep = euler_to_rotationmatrix(np.asarray(ang[b], dtype=float))
+    ctx.spec("best orientation carries the planted rotation", inp, _same_rotation(case, Rrep, rots), {"reported": np.round(Rrep, 3).tolist()},
              key="cli:rotation")
-    if score not in ("CC", "LCC"):
-        ctx.spec("best orientation's score is close to 1 for a normalised score", inp, bool(float(ori.scores[b]) >= (0.6 if centering else 0.9)),
-                 {"score": float(ori.scores[b])}, key="cli:score-near-one:" + score)
+    # the library's reader sees the same rows as the file holds
+    try:
+        from tme.orientations import Orientations
+        ori = Orientations.from_file(os.path.join(case["dir"], "ori_primary.tsv"), file_format="text")
+        same_rows = ori.translations.shape == pos.shape and np.array_equal(ori.translations, pos.astype(np.float32)) and \
+            np.array_equal(ori.rotations, ang.astype(np.float32)) and np.array_equal(ori.scores, sc.astype(np.float32))
+    except Exception as e:
+        same_rows = False
+        log = repr(e)
+    ctx.agree("Orientations.from_file(ori.tsv) == the rows of the file (columns by name)", inp, bool(same_rows), True)
+    if score in NORMALISED:
+        if fam in ("dense", "noncubic"):
+            floor = 0.6 if centering else 0.9
+        else:
+            # exact copy under the mask / exact integral shift: the planted value is 1 up to float32 noise and the small additive
+            # background (sd 0.05 against a particle of amplitude >= 0.4 in at most a quarter of the box for `intcom`)
+            # masked: the score at the planted pose is the correlation under the binary mask (computed from the generated data in
+            # double precision), up to the float32 noise allowance used for score maps (2e-3)
+            floor = case["expected_score"] - 2e-3 if fam == "masked" else 0.7
+        ctx.spec("best orientation's score is close to 1 for a normalised score", inp, bool(float(sc[b]) >= floor),
+                 {"score": float(sc[b]), "floor": floor}, key="cli:score-near-one:" + score)
+        ctx.spec("a normalised score does not exceed 1 (beyond float32 noise)", inp, bool(float(sc.max()) <= 1.0 + 2e-3), {"max": float(sc.max())},
+                 key="cli:score-above-one:" + score)
+    nop = opt.get("number_of_peaks", 10)
+    if not peak_calling:
+        ctx.spec("no more orientations than --number_of_peaks", inp, nrow <= (1000 if nop is None else int(nop)), {"rows": nrow}, key="cli:number-of-peaks")
+    # ---- post-processing variants on the same result file ---------------------------------------------------------------
+    for v in case["variants"]:
+        r = res.get("v:" + v)
+        if r is None:
+            continue
+        vinp = dict(inp)
+        vinp["postprocess_variant"] = v
+        vrc, vlog, got = r
+        if vrc != 0 or got is None:
+            ctx.spec("postprocess.py runs", vinp, False, vlog, key=f"cli:postprocess-failed:{v}:" + peak_caller)
+            continue
+        vh, vt, vn = got
+        if vh != TSV_HEADER:
+            ctx.spec("orientation file has the columns z y x euler_z euler_y euler_x score detail", vinp, False, {"header": vh}, key="cli:tsv-header")
+            continue
+        if v == "reread":
+            vp, va, vs = _rows(vt, vn)
+            ctx.spec("an orientation file handed back through --orientations is written out unchanged", vinp,
+                     vn == nrow and np.array_equal(vp, pos) and np.array_equal(va.astype(np.float32), ang.astype(np.float32)) and np.array_equal(vs, sc),
+                     {"rows": [nrow, vn]}, key="cli:reread-orientations")
+            continue
+        if vn == 0:
+            ctx.spec("orientation list is not empty", vinp, False, key="cli:no-orientations:" + v)
+            continue
+        vp, va, vs, vb = best_of(vt, vn)
+        vtol = tol + (0.75 if v == "oversample" else 0.0)
+        okv = bool(np.all(np.abs(vp[vb] - ref) <= vtol + 1e-6))
+        ctx.spec("best orientation sits at the planted reference point (box centre / centre of mass) in target voxels", vinp, okv,
+                 {"best": vp[vb].tolist(), "reference": ref.tolist(), "score": float(vs[vb])}, key=f"cli:position:{v}:" + cls)
+        Rv = euler_to_rotationmatrix(np.asarray(va[vb], dtype=float))
+        ctx.spec("best orientation carries the planted rotation", vinp, _same_rotation(case, Rv, rots), {"reported": np.round(Rv, 3).tolist()},
+                 key="cli:rotation:" + v)
+        best = float(sc[b])
+        if v == "one":
+            ctx.spec("--number_of_peaks 1 leaves exactly the best orientation", vinp, vn == 1, {"rows": vn}, key="cli:number-of-peaks:one")
+        elif v == "tie":
+            ctx.spec("--minimum_score equal to the best score keeps the best orientation and nothing below it", vinp,
+                     bool(np.all(vs >= best)), {"scores": vs[:5].tolist(), "threshold": best}, key="cli:minimum-score:tie")
+        elif v == "below":
+            ctx.spec("--minimum_score keeps exactly the orientations at or above it", vinp, bool(np.all(vs >= np.float32(best * 0.5))),
+                     {"min": float(vs.min()), "threshold": best * 0.5}, key="cli:minimum-score")
+        elif v == "maxtie":
+            ctx.spec("--maximum_score equal to the best score keeps the best orientation", vinp, bool(np.all(vs <= best)),
+                     {"max": float(vs.max())}, key="cli:maximum-score:tie")
+        elif v in ("boundary", "mask_edges"):
+            dist = int(case["boundary"]) if v == "boundary" else int(np.ceil(max(ms) / 2))
+            vinp["boundary_distance"] = dist
+            kept = d.batch([("c18.keptAt", {"d": dist, "n": int(n_), "x": int(x_)}) for p_ in vp for x_, n_ in zip(p_, ns) if x_ >= 0])
+            inside = bool(np.all(vp >= 0)) and all(k_["kept"] for k_ in kept)
+            ctx.spec("with a boundary distance every reported orientation keeps that distance from the target's faces", vinp, inside,
+                     {"distance": dist}, key="cli:boundary-distance")
+            if v == "boundary":
+                must = d.batch([("c18.keptAt", {"d": dist, "n": int(n_), "x": int(x_)}) for x_, n_ in zip(ref, ns)])
+                ctx.obligation("C18 generator: the planted point keeps the requested boundary distance (Pm.C18.keptAt)", all(k_["kept"] for k_ in must),
+                               {"ref": ref.tolist(), "distance": dist, "ns": ns})
+        elif v == "ppmask":
+            # (the mask multiplies the scores: an orientation reported outside it can only carry the score 0)
+            pm = case["ppmask"]
+            zero_outside = bool(all(pm[tuple(int(round(x)) for x in p_)] > 0 or s_ == 0.0 for p_, s_ in zip(vp, vs)))
+            ctx.spec("with a post-processing mask an orientation outside the mask has score 0", vinp, zero_outside, key="cli:postprocess-mask")
+    if "digest_after" in res:
+        ctx.spec("post-processing leaves the arrays of the result file as they were written", inp, res["digest_before"] == res["digest_after"],
+                 {"before": res["digest_before"], "after": res["digest_after"], "variants": case["variants"]},
+                 key="cli:result-file-modified-by-postprocess" + (":memmap" if opt.get("use_memmap") else ""))
     # the score map written by the CLI == an in-process search on the same data (no centring: identical template)
-    if not peak_calling and not centering and it % 2 == 0:
-        Rall = np.stack([r[2] for r in rots])
-        from tme.matching_utils import get_rotation_matrices
-        Rset = get_rotation_matrices(angular_sampling=60, dim=3)
-        ref_res = S.run_subsets(score, target, template, rotations=Rset, pad=pad_fourier, order=1, splits={}, pad_edges=bool(pad_edges or split),
-                                callback_args={"score_threshold": 0.0}, target_mask=np.ones(ns) if score == "MCC" else None)
+    plain = not (opt.get("invert") or opt.get("target_mask") or opt.get("score_threshold") or opt.get("order", 1) != 1 or fam not in ("dense", "noncubic")
+                 or int(opt.get("angular", 60)) != 60)
+    if not peak_calling and not centering and it % 2 == 0 and plain:
+        ref_res = S.run_subsets(score, case["target"], case["template"], rotations=case["Rset"], pad=pad_fourier, order=1, splits={},
+                                pad_edges=bool(pad_edges or split), callback_args={"score_threshold": 0.0},
+                                target_mask=np.ones(ns) if score == "MCC" else None)
         a, b_ = np.asarray(data[0], np.float64), np.asarray(ref_res[0], np.float64)
         close = a.shape == b_.shape and float(np.max(np.abs(a - b_))) <= (2e-3 if score not in ("CC", "LCC") else 1e-3 * max(1.0, float(np.abs(b_).max())))
         ctx.agree("score map in the result file == in-process scan_subsets on the same data", inp, bool(close), True)
     ctx.distinct(tuple(sorted((k, str(v)) for k, v in opt.items())))
     for k in ("score", "peak_calling", "split", "centering", "peak_caller"):
         ctx.count(f"cli:{k}={opt[k]}")
+    ctx.count("cli:family=" + fam)
+    for k in ("sampling", "invert", "target_mask", "angular", "order", "score_threshold", "target_scale", "target_offset", "output", "jobs", "stale_output",
+              "number_of_peaks", "min_distance", "use_memmap"):
+        if k in opt:
+            ctx.count(f"cli:{k}={opt[k]}")
+    for v in case["variants"]:
+        ctx.count("cli:pp=" + v)
     if it < 2:
         ctx.sample(inp)
+
+
+def _base_options(it):
+    opt = {
+        "score": SCORES[it % len(SCORES)],
+        "peak_calling": bool(it % 3 == 1),
+        "split": bool(it % 2 == 1),
+        "centering": bool(it % 4 in (2, 3)),
+        "pad_fourier": bool(it % 5 != 4),
+        "pad_edges": bool(it % 3 == 0),
+        "peak_caller": CALLERS[it % len(CALLERS)],
+        "border": bool(it % 4 == 0),
+        "use_memmap": bool(it % 7 == 3),
+        # inner jobs: 2 divides the 24 rotations; 5 and 7 do not (the last job gets the remainder)
+        # (with a memory limit the tool may legitimately find no schedule for an odd core count: keep 2 there)
+        "jobs": 2 if it % 2 == 1 else [5, 2, 7, 2, 2][it % 5],
+    }
+    if it % 8 == 6:
+        # the tool's plain defaults: score map, no --pad_fourier, no --pad_edges, no memory limit, no centring; the particle
+        # touches the upper border of a target whose extents are not fast FFT lengths
+        opt.update(peak_calling=False, split=False, centering=False, pad_fourier=False, pad_edges=False, border="upper",
+                   use_memmap=False, jobs=2, score=["FLCSphericalMask", "CORR", "FLC", "CAM"][(it // 8) % 4],
+                   peak_caller=["PeakCallerMaximumFilter", "PeakCallerSort"][(it // 8) % 2])
+    return opt
+
+
+PP_VARIANTS = ["one", "tie", "below", "maxtie", "boundary", "mask_edges", "reread", "ppmask", "oversample"]
+
+
+def _wide_options(j, rx):
+    """the j-th case of the widened stream: family x call-time dimensions (a covering design: every dimension cycles with its own
+    period, the remaining freedom is drawn from rx)"""
+    fam = ["intcom", "masked", "noncubic", "dense", "masked", "intcom", "dense", "noncubic"][j % 8]
+    opt = {"family": fam}
+    if fam == "masked":
+        opt["score"] = ["FLC", "MCC"][(j // 8 + j) % 2]
+        opt["centering"] = bool((j // 4) % 2 == 0)
+    elif fam == "intcom":
+        # (the mask the tool builds for a centred template is a cube that may sit half a voxel off the rotation centre: only the
+        # scores that rotate the mask together with the template are independent of that)
+        opt["score"] = ["FLC", "MCC"][(j // 8 + j // 5) % 2]
+        opt["centering"] = True
+    else:
+        opt["score"] = SCORES[(j // 2) % len(SCORES)]
+        opt["centering"] = bool(fam == "dense" and j % 3 == 0)
+    opt["peak_calling"] = bool(j % 3 == 2)
+    opt["split"] = bool(j % 4 == 1)
+    opt["pad_fourier"] = bool(j % 5 not in (1, 4))
+    opt["pad_edges"] = bool(j % 3 == 1)
+    opt["peak_caller"] = CALLERS[(j + j // 5) % len(CALLERS)]
+    opt["border"] = bool(fam in ("dense", "noncubic") and j % 4 >= 2 and not opt["centering"])
+    opt["use_memmap"] = bool(j % 3 == 0 or j % 9 == 4)
+    opt["jobs"] = 2 if opt["split"] else [1, 3, 2, 1, 5, 2][j % 6]
+    opt["sampling"] = [1.0, 2.0, 0.5, 13.33][j % 4]
+    opt["origin_target"] = [[0, 0, 0], [12, -7, 30], [-100, 4, 9]][j % 3]
+    opt["origin_template"] = [[0, 0, 0], [-4, 8, 2], [25, 25, -6]][(j + 1) % 3]
+    opt["output"] = ["cwd", "subdir", "abs"][j % 3]
+    opt["angular"] = 180 if j % 7 == 3 else (200 if j % 7 == 6 else 60)
+    opt["order"] = None if j % 6 == 5 else (3 if j % 6 == 2 else 1)
+    if fam == "masked" or (fam == "intcom" and opt["score"] == "MCC"):
+        # orders above 1 resample the mask without prefilter (a smoothing): a tight binary mask then reaches into the clutter, and
+        # the doubly-masked score saturates for non-binary masks; both are outside what this family plants
+        opt["order"] = 1
+    if opt["score"] in NORMALISED and not opt["peak_calling"]:
+        opt["score_threshold"] = [0, 0.25, 0][j % 3]
+    if opt["score"] in NORMALISED:
+        opt["target_scale"], opt["template_scale"] = [(1.0, 1.0), (1e-3, 50.0), (200.0, 1e-2), (1.0, 1e3)][(j // 2) % 4]
+    if opt["score"] in MEANFREE and fam != "masked":
+        opt["target_offset"] = [0.0, 2.0, -1.0][j % 3]
+    opt["invert"] = bool(j % 5 == 2 and opt["score"] in MEANFREE)
+    opt["target_mask"] = bool(j % 4 == 3 and opt["score"] != "MCC" and not opt["peak_calling"])
+    opt["stale_output"] = bool(j % 4 == 2)
+    opt["number_of_peaks"] = [10, None, 1, 3][j % 4]
+    opt["min_distance"] = [3, 1, None, 2][(j // 2) % 4]
+    if opt["peak_caller"] == "PeakCallerScipy" and opt["min_distance"] is None:
+        opt["min_distance"] = 3       # (its default of 5 excludes a 5-voxel border: more than the interior placements keep)
+    opt["boundary"] = [2, 1, 3][j % 3]
+    k = 1 if rx is None else 2
+    opt["pp"] = [PP_VARIANTS[(j + i * 4) % len(PP_VARIANTS)] for i in range(k)]
+    if opt["peak_caller"] == "PeakCallerScipy":
+        # skimage's peak_local_max takes its threshold exclusively (a contract of the external finder): no tie there
+        opt["pp"] = ["below" if v == "tie" else v for v in opt["pp"]]
+    return opt
+
+
+def _finalise(case):
+    """variants that need geometry: drop those whose precondition does not hold for this placement; write their files"""
+    ref = case["ref"] if case["ref"] is not None else np.array(case["P0"]) + np.array(case["box"]) // 2
+    keep = []
+    for v in case["variants"]:
+        if v == "boundary":
+            # the largest distance that still admits the planted point (a tie with the bound) when the point is a voxel centre and
+            # at most 6 voxels from a face; otherwise the configured distance, which must then leave the point well inside
+            near = int(min(min(r, n - 1 - r) for r, n in zip(np.floor(ref), case["ns"])))
+            if case["tol"] == 0 and 1 <= near <= 6:
+                case["boundary"] = near
+            else:
+                case["boundary"] = int(case["opt"].get("boundary", 2))
+                if not _ref_distance_ok(case, ref, case["boundary"] + int(np.ceil(case["tol"]))):
+                    continue
+        if v == "mask_edges" and (case["opt"]["centering"] or not _ref_distance_ok(case, ref, int(np.ceil(max(case["ms"]) / 2)))):
+            continue
+        if v in ("boundary", "mask_edges", "ppmask", "oversample", "one") and case["opt"]["peak_calling"]:
+            continue        # these act on a score map (a peak list is passed through as it is)
+        if v == "ppmask":
+            pm = np.zeros(case["ns"])
+            lo = [max(0, int(np.floor(r)) - 4) for r in ref]
+            hi = [min(n, int(np.ceil(r)) + 5) for r, n in zip(ref, case["ns"])]
+            pm[tuple(slice(a, b) for a, b in zip(lo, hi))] = 1.0
+            case["ppmask"] = pm
+            _write_mrc(os.path.join(case["dir"], "ppmask.mrc"), pm, case["sampling"], case["origin_t"])
+        keep.append(v)
+    case["variants"] = keep
+    case["inp"]["pp"] = keep
+    return case
 
 
 def run(ctx):
@@ -286,36 +974,25 @@ def run(ctx):
     rng = ctx.rng("main")
     tmp = env.scratch()
     _pickle_cases(ctx, d, rng, tmp)
-    ncli = ctx.budget(8, 70)
-    callers = ["PeakCallerMaximumFilter", "PeakCallerSort", "PeakCallerFast", "PeakCallerRecursiveMasking", "PeakCallerScipy"]
-    opts = []
-    for it in range(ncli):
-        opts.append({
-            "score": SCORES[it % len(SCORES)],
-            "peak_calling": bool(it % 3 == 1),
-            "split": bool(it % 2 == 1),
-            "centering": bool(it % 4 in (2, 3)),
-            "pad_fourier": bool(it % 5 != 4),
-            "pad_edges": bool(it % 3 == 0),
-            "peak_caller": callers[it % len(callers)],
-            "border": bool(it % 4 == 0),
-            "use_memmap": bool(it % 7 == 3),
-            # inner jobs: 2 divides the 24 rotations; 5 and 7 do not (the last job gets the remainder)
-            # (with a memory limit the tool may legitimately find no schedule for an odd core count: keep 2 there)
-            "jobs": 2 if it % 2 == 1 else [5, 2, 7, 2, 2][it % 5],
-        })
-        if it % 8 == 6:
-            # the tool's plain defaults: score map, no --pad_fourier, no --pad_edges, no memory limit, no centring; the particle
-            # touches the upper border of a target whose extents are not fast FFT lengths
-            opts[-1].update(peak_calling=False, split=False, centering=False, pad_fourier=False, pad_edges=False, border="upper",
-                            use_memmap=False, jobs=2, score=["FLCSphericalMask", "CORR", "FLC", "CAM"][(it // 8) % 4],
-                            peak_caller=["PeakCallerMaximumFilter", "PeakCallerSort"][(it // 8) % 2])
-    # it=0: no centring, even box, --pad_edges, score map;  it=1: -p, memory-limited split, 2 cores, odd box, no centring
-    # run the subprocess cases on a few workers
+    nbase = ctx.budget(8, 40)
+    nwide = ctx.budget(20, 88)
+    cases = []
+    for it in range(nbase):
+        # it=0: no centring, even box, --pad_edges, score map;  it=1: -p, memory-limited split, 2 cores, odd box, no centring
+        opt = _base_options(it)
+        if it % 4 == 0:
+            opt["pp"] = [PP_VARIANTS[(it // 4) % len(PP_VARIANTS)]]
+        cases.append(_finalise(_build_case(it, opt, ctx.rng(f"cli{it}"), ctx.rng(f"clix{it}"), tmp)))
+    for j in range(nwide):
+        rx = ctx.rng(f"wide{j}")
+        cases.append(_finalise(_build_case(1000 + j, _wide_options(j, rx if ctx.thorough else None), rx, rx, tmp)))
+    # the subprocess parts run on a few workers; the clauses are evaluated here, in order
     from concurrent.futures import ThreadPoolExecutor
-    rngs = [ctx.rng(f"cli{it}") for it in range(ncli)]
-
-    def job(it):
-        return it
-    for it in range(ncli):
-        _cli_case(ctx, d, rngs[it], tmp, it, opts[it])
+    workers = int(os.environ.get("PV_C18_WORKERS", "5"))
+    with ThreadPoolExecutor(max_workers=workers) as pool:
+        futs = [pool.submit(_execute, c) for c in cases]
+        for c, f in zip(cases, futs):
+            f.result()
+            _evaluate(ctx, d, c)
+            for k in ("target", "template", "target_mask", "rot_obj", "rot_img", "ppmask"):
+                c.pop(k, None)
